@@ -51,6 +51,9 @@ TStep ==
                    trees' = (e.t2 :> trees[e.t]) @@ trees
                [] OTHER -> FALSE
          /\ ObsOK(e, trees'[IF e.op = "clone" THEN e.t2 ELSE e.t])
+         \* trees not touched by this call (an original and its clones are independent)
+         /\ \A i \in DOMAIN e.others :
+              e.others[i][1] \in DOMAIN trees' /\ e.others[i][3] = SLen(trees'[e.others[i][1]].s)
 
 TSkip ==
   /\ l <= N
